@@ -30,6 +30,8 @@ static bool xc_proc_Shutdown(const xc_opaque *p, long timeout)
 def _uptr(em, base, targs, name):
     if base == "std::unique_ptr" and targs and targs[0].strip().split("::")[-1] in ("SpanProcessor", "LogRecordProcessor"):
         return CT("xc_opaque", 1)      # a processor is identified by its address
+    if base == "std::shared_ptr" and targs and targs[0].strip().split("::")[-1] == "LoggerContext":
+        return CT("LoggerContext", 1)
     if base == "std::shared_ptr" and targs and targs[0].strip().split("::")[-1] == "TracerContext":
         return CT("TracerContext", 1)  # the provider's context: a plain pointer (reference counts not modelled)
     return None
@@ -116,6 +118,14 @@ for _n, _cnt, _proc, _ans, _other in (("ForceFlush", "g_ff_calls", "g_ff_proc", 
     _ptp.tu = TU_TP
     _ptp.force_records = ("sdk::trace::TracerContext",)
     proofs.append(_ptp)
+TU_LP = ("tu_logger_provider", '#include "%s/sdk/src/logs/logger_context.cc"\n#include "%s/sdk/src/logs/logger_provider.cc"\n' % (R.core.REPO, R.core.REPO))
+for _n in ("ForceFlush", "Shutdown"):
+    contracts["LoggerProvider_" + _n] = contracts["TracerProvider_" + _n]
+    _plp = Proof("LoggerProvider_" + _n, [("LoggerProvider::" + _n, 1), ("LoggerContext::" + _n, 1)], enforce="LoggerProvider_" + _n, replace=["LoggerContext_" + _n], timeout=300,
+                 desc="the logger provider call reaches the context (and through its contract the processor) exactly once and reports its answer")
+    _plp.tu = TU_LP
+    _plp.force_records = ("sdk::logs::LoggerContext",)
+    proofs.append(_plp)
 TU_LC = ("tu_logger_context", '#include "%s/sdk/src/logs/logger_context.cc"\n' % R.core.REPO)
 for _n in ("ForceFlush", "Shutdown"):
     contracts["LoggerContext_" + _n] = contracts["TracerContext_" + _n]
